@@ -35,6 +35,13 @@ mod native {
     fn pop(n: usize) -> Vec<u8> {
         Q.with(|q| {
             let v = q.borrow_mut().pop_front().unwrap_or_else(|| {
+                // VERIF_REPLAY_FILL=<hex byte>: when the solver's verdict came without extractable values, the harness
+                // is tried on a uniform filling instead (a failure that reproduces this way is still a concrete one)
+                if let Ok(f) = std::env::var("VERIF_REPLAY_FILL") {
+                    if let Ok(b) = u8::from_str_radix(&f, 16) {
+                        return vec![b; n];
+                    }
+                }
                 println!("REPLAY-MISMATCH: value queue exhausted");
                 std::process::exit(3)
             });
